@@ -609,3 +609,8 @@ seed('c13-n-components-swap-and-pop-with-step-back', 'C13', [(GRID, "           
 seed('c13-components-swap-and-pop-no-step-back', 'C13', [(GRID, "                            --index;\n                            q.erase(q.begin() + index);", "                            q[index - 1] = q.back();\n                            q.pop_back();")], 'R13e')
 seed('c12-update-epsilon-shortcut', 'C12', [(PDFH, "            const double weightChange = w - tree_.front()[index];\n", "            const double weightChange = w - tree_.front()[index];\n            if (weightChange < 1e-12 && weightChange > -1e-12)\n                return;\n")], 'R12e')
 seed('c12-n-update-exact-unchanged-shortcut', 'C12', [(PDFH, "            const double weightChange = w - tree_.front()[index];\n", "            const double weightChange = w - tree_.front()[index];\n            if (weightChange == 0.0)\n                return;\n")], None)
+
+# ---- round-5 rules ------------------------------------------------------------------------------------------------
+seed('c03-lbtrrt-refuses-resume', 'C03', [(LBTC, "    if (pdef_->getStartStateCount() > 1)", "    if (nn_->size() > 1)")], 'R03r')
+seed('c03-rrt-refusal-not-one', 'C03', [(RRTC, "    if (nn_->size() == 0)\n    {\n        OMPL_ERROR(\"%s: There are no valid initial states!\"", "    if (nn_->size() != 1)\n    {\n        OMPL_ERROR(\"%s: There are no valid initial states!\"")], 'R03r')
+seed('c03-n-rrt-refusal-lt-one', 'C03', [(RRTC, "    if (nn_->size() == 0)\n    {\n        OMPL_ERROR(\"%s: There are no valid initial states!\"", "    if (nn_->size() < 1)\n    {\n        OMPL_ERROR(\"%s: There are no valid initial states!\"")], None)
